@@ -169,6 +169,21 @@ def managed_protocol(repo):
                     raise TranslateError('ManagedThread::isActive() is more than a read of the activity flag '
                                          '(members %s)' % sorted(members))
     mode = 'Atomic' if 'atomic' in flag_type else 'Plain'
+    # the destructor is the join of the protocol: it may test joinable(), it must call join(), it must not depend
+    # on the activity flag and must never detach the thread
+    dtor_seen = False
+    for d in docs:
+        for n in _walk(d):
+            if n.get('kind') == 'CXXDestructorDecl' and any(c.get('kind') == 'CompoundStmt' for c in n.get('inner', [])):
+                dtor_seen = True
+                names = [x.get('name') for x in _walk(n) if x.get('kind') == 'MemberExpr']
+                if 'join' not in names:
+                    raise TranslateError('ManagedThread::~ManagedThread() does not join the thread')
+                if 'detach' in names or 'isActive' in names or flag in names:
+                    raise TranslateError('ManagedThread::~ManagedThread() detaches the thread or makes the join '
+                                         'depend on the activity flag (members %s)' % sorted(set(x for x in names if x)))
+    if not dtor_seen:
+        raise TranslateError('ManagedThread::~ManagedThread(): definition not found in the AST')
     # the instantiated constructor
     ctor = None
     for d in docs:
